@@ -20,13 +20,14 @@ STUBS = ['Optic.trace / trace_generic -> uninterpreted functions of (Hx,Hy,Px,Py
 LAST = 3
 
 
-def slab(ctx, ft='angle', nw=2, primary=1, nf=2):
+def slab(ctx, ft='angle', nw=2, primary=1, nf=2, curved=False):
     """plane-surface lens: supplies fields, wavelengths (primary = second), stop index and the paraxial rays; tracer uninterpreted"""
     from optiland.optic import Optic
     o = Optic()
     t0 = np.inf if ft == 'angle' else ctx.real('t0', lo=1.0, hi=100.0)
     o.add_surface(index=0, thickness=t0)
-    o.add_surface(index=1, thickness=ctx.real('t1', lo=0.1, hi=20.0), material=ideal(ctx.real('n1', lo=1.0, hi=2.0)))
+    kw = dict(radius=ctx.real('R1', lo=5.0, hi=500.0)) if curved else {}       # (power in front of the stop: stop radius != EPD / 2)
+    o.add_surface(index=1, thickness=ctx.real('t1', lo=0.1, hi=20.0), material=ideal(ctx.real('n1', lo=1.0, hi=2.0)), **kw)
     o.add_surface(index=2, thickness=ctx.real('t2', lo=0.1, hi=50.0), is_stop=True)
     o.add_surface(index=3)
     o.set_aperture('EPD', ctx.real('epd', lo=0.1, hi=10.0))
@@ -393,16 +394,17 @@ def h5_field_curvature(ctx, n, waves):
 # ------------------------------------------------------------------------------------------------ pupil aberration
 @harness('C12', 'H6_pupil_aberration', funcs=FUNCS, stubs=STUBS, cases=lambda tier: [dict(sel='all'), dict(sel='explicit'), dict(sel='blocked')],
          bounds='all: 3 pupil points, 2 fields x 2 wavelengths, strictly positive intensities; explicit: field (0, 0.5), wavelength [w1]; '
-                'blocked: 1 pupil point, arbitrary intensities (zero allowed); real paraxial trace of the plane-surface lens',
+                'blocked: 1 pupil point, arbitrary intensities (zero allowed); real paraxial trace of a lens with a curved surface in front of the stop',
          doc='pupil aberration = 100 (paraxial - real) stop coordinate / paraxial stop semi-diameter on the line_x / line_y fans, NaN exactly where '
              'the traced intensity is zero')
 def h6_pupil_aberration(ctx, sel):
     from optiland.analysis.pupil_aberration import PupilAberration
-    o, nums = slab(ctx)
+    o, nums = slab(ctx, curved=True)
     w1, w2 = nums['ws']
     ya, _ = o.paraxial.marginal_ray()
     stop = o.surface_group.stop_index
     d = ctx.val(ya[stop])
+    ctx.assume(ctx.Not(ctx.eq(d, 0.0)))          # (the stop does not sit in an image of the axial object point)
     val = install_uf_tracer(ctx, o, positive_intensity=('strict' if sel != 'blocked' else False))
     if sel == 'all':
         fields, waves = [(0.0, 0.0), (0.0, 1.0)], [w1, w2]
